@@ -68,39 +68,6 @@ var newUClientConnection = func(
 		connIDGenerator,
 	)
 	s.ctx, s.ctxCancel = context.WithCancelCause(ctx)
-	s.preSetup()
-	// [UQUIC] A QUICSpec is authoritative over the Initial CRYPTO framing (via
-	// InitialPacketSpec.FrameBuilder), and uPacketPacker re-frames every Initial
-	// datagram. The upstream anti-DPI ClientHello scrambler would cut the stream at
-	// the SNI/ECH, producing non-contiguous CRYPTO frames that the re-framing path
-	// cannot reassemble (breaks multi-datagram Initials, e.g. Chrome 146). Disable it.
-	s.initialStream.DisableScrambling()
-	s.sentPacketHandler = ackhandler.NewUAckHandler(
-		initialPacketNumber,
-		protocol.ByteCount(s.config.InitialPacketSize),
-		s.rttStats,
-		&s.connStats,
-		false, // has no effect
-		s.conn.capabilities().ECN,
-		s.receivedPacketHandler.IgnorePacketsBelow,
-		s.perspective,
-		s.qlogger,
-		s.logger,
-	)
-	s.currentMTUEstimate.Store(uint32(estimateMaxPayloadSize(protocol.ByteCount(s.config.InitialPacketSize))))
-	// [UQUIC] Set Initial packet number encoding length.
-	// Per-packet list takes precedence over single-value override.
-	if len(uSpec.InitialPacketSpec.InitPacketNumberLengths) > 0 {
-		ackhandler.SetInitialPacketNumberLengths(
-			s.sentPacketHandler,
-			protocol.PacketNumber(uSpec.InitialPacketSpec.InitPacketNumber),
-			uSpec.InitialPacketSpec.InitPacketNumberLengths,
-		)
-	} else if uSpec.InitialPacketSpec.InitPacketNumberLength != 0 {
-		ackhandler.SetInitialPacketNumberLength(s.sentPacketHandler, uSpec.InitialPacketSpec.InitPacketNumberLength)
-	}
-
-	oneRTTStream := newCryptoStream()
 
 	var params *wire.TransportParameters
 
@@ -179,6 +146,43 @@ var newUClientConnection = func(
 			params.MaxDatagramFrameSize = protocol.InvalidByteCount
 		}
 	}
+	// [UQUIC] The transport parameters above are what the peer is told; preSetup derives what is
+	// enforced against the peer from s.config. Make the enforced limits cover the advertised ones.
+	s.config = configCoveringAdvertised(s.config, params)
+	s.preSetup()
+	// [UQUIC] A QUICSpec is authoritative over the Initial CRYPTO framing (via
+	// InitialPacketSpec.FrameBuilder), and uPacketPacker re-frames every Initial
+	// datagram. The upstream anti-DPI ClientHello scrambler would cut the stream at
+	// the SNI/ECH, producing non-contiguous CRYPTO frames that the re-framing path
+	// cannot reassemble (breaks multi-datagram Initials, e.g. Chrome 146). Disable it.
+	s.initialStream.DisableScrambling()
+	s.sentPacketHandler = ackhandler.NewUAckHandler(
+		initialPacketNumber,
+		protocol.ByteCount(s.config.InitialPacketSize),
+		s.rttStats,
+		&s.connStats,
+		false, // has no effect
+		s.conn.capabilities().ECN,
+		s.receivedPacketHandler.IgnorePacketsBelow,
+		s.perspective,
+		s.qlogger,
+		s.logger,
+	)
+	s.currentMTUEstimate.Store(uint32(estimateMaxPayloadSize(protocol.ByteCount(s.config.InitialPacketSize))))
+	// [UQUIC] Set Initial packet number encoding length.
+	// Per-packet list takes precedence over single-value override.
+	if len(uSpec.InitialPacketSpec.InitPacketNumberLengths) > 0 {
+		ackhandler.SetInitialPacketNumberLengths(
+			s.sentPacketHandler,
+			protocol.PacketNumber(uSpec.InitialPacketSpec.InitPacketNumber),
+			uSpec.InitialPacketSpec.InitPacketNumberLengths,
+		)
+	} else if uSpec.InitialPacketSpec.InitPacketNumberLength != 0 {
+		ackhandler.SetInitialPacketNumberLength(s.sentPacketHandler, uSpec.InitialPacketSpec.InitPacketNumberLength)
+	}
+
+	oneRTTStream := newCryptoStream()
+
 	if s.qlogger != nil {
 		s.qlogTransportParameters(params, protocol.PerspectiveClient, false)
 	}
@@ -238,4 +242,28 @@ func cloneClientHelloSpecForDial(chs *tls.ClientHelloSpec) *tls.ClientHelloSpec 
 		}
 	}
 	return &c
+}
+
+// [UQUIC] configCoveringAdvertised returns a copy of conf in which every limit the connection
+// enforces against the peer is at least as permissive as the transport parameter advertised for it.
+// A QUICSpec is authoritative over the transport parameters on the wire, while the flow controllers,
+// the streams map, the frame parser and the idle timer are set up from the Config: without this, a
+// peer making full use of the advertised values (e.g. Chrome's initial_max_data of 15 MiB against the
+// default 768 KiB receive window, 103 unidirectional streams against the default 100, DATAGRAM
+// frames with EnableDatagrams unset, 30 s of silence against a shorter MaxIdleTimeout) was answered
+// with a locally generated FLOW_CONTROL_ERROR, STREAM_LIMIT_ERROR or FRAME_ENCODING_ERROR, or was
+// timed out early. For parameters derived from the Config itself this is the identity.
+func configCoveringAdvertised(conf *Config, p *wire.TransportParameters) *Config {
+	c := conf.Clone()
+	c.InitialConnectionReceiveWindow = max(c.InitialConnectionReceiveWindow, uint64(p.InitialMaxData))
+	c.MaxConnectionReceiveWindow = max(c.MaxConnectionReceiveWindow, c.InitialConnectionReceiveWindow)
+	// there is one receive window for all stream types
+	c.InitialStreamReceiveWindow = max(c.InitialStreamReceiveWindow,
+		uint64(max(p.InitialMaxStreamDataBidiLocal, p.InitialMaxStreamDataBidiRemote, p.InitialMaxStreamDataUni)))
+	c.MaxStreamReceiveWindow = max(c.MaxStreamReceiveWindow, c.InitialStreamReceiveWindow)
+	c.MaxIncomingStreams = max(c.MaxIncomingStreams, int64(p.MaxBidiStreamNum))
+	c.MaxIncomingUniStreams = max(c.MaxIncomingUniStreams, int64(p.MaxUniStreamNum))
+	c.EnableDatagrams = c.EnableDatagrams || p.MaxDatagramFrameSize > 0
+	c.MaxIdleTimeout = max(c.MaxIdleTimeout, p.MaxIdleTimeout)
+	return c
 }
